@@ -8,32 +8,78 @@ from streams import cmp
 
 TB = [
     "Lean 4.33 kernel; axioms allowed: propext, Classical.choice, Quot.sound (checked by #print axioms on every theorem)",
-    "exact integer model of IEEE-754 binary64 division / addition / int conversion (lean/SmVerif/Model/Float64.lean, Float64More.lean); "
-    "assumes hardware division/addition and Python int/float conversions are correctly rounded",
+    "exact integer model of IEEE-754 binary64: int conversion, division, multiplication, addition, subtraction, SQUARE ROOT, "
+    "comparisons (lean/SmVerif/Model/Float64.lean, Float64More.lean); assumes the hardware operations and Python's int/float "
+    "conversions are correctly rounded (IEEE-754); the model's sqrt and the argument handed to acos are validated bit for bit by "
+    "the fsqrt / fcos ops of the stream against the hardware",
     "hand-written model of count_common / intersection_size / jaccard / angular_similarity / similarity (minhash.rs), of the Python "
     "comparison methods (minhash.py), of SourmashSignature's wrappers and of Frac/NumMinHashComparison (lean/SmVerif/Model/Compare.lean), "
-    "tied to /repo by the cmp stream (differential testing); integers and correctly-rounded ratios are compared exactly (bit for bit)",
-    "TIER 2, NOT PROVED: the sqrt/acos tail of angular_similarity and the bias factor 1-(1-1/scaled)**(n*scaled) of the containment "
-    "functions are computed by the driver with the run-time Float (same libm) and compared with relative tolerance 1e-12; the theorems "
-    "cover the exact integers these formulas are applied to (dot product, sums of squares, common count, denominators), the decisions "
-    "around them and, over Q, the facts 0 < bias <= 1, corrected >= raw, clamped <= 1",
-    "u64 wrap-around in the sums of squared abundances / dot product: the release build wraps silently; the model wraps the same way, "
-    "the theorems assume no overflow (explicit hypothesis)",
+    "tied to /repo by the cmp stream (differential testing); integers and every value that involves only IEEE basic operations are "
+    "compared exactly (bit for bit)",
+    "TIER 2, NOT PROVED: the two libm calls. `acos` (angular similarity) and `**` (bias factor 1-(1-1/scaled)**(n*scaled)) are "
+    "PARAMETERS of the model (Cmp.angularValue, PyCmp.Cont.value); the theorems about the reported doubles assume AcosLaws "
+    "(acos(1)=0, acos(0)=fl(pi/2), acos<=fl(pi/2) on [0,1]) resp. BiasLaws (0 < bias <= 1) and prove everything around them in "
+    "binary64 (clamps, range, =1, =0, monotonicity, never below the plain quotient). The driver instantiates the parameters with the "
+    "run-time Float of the same libm; such values carry a `~` and are compared with relative tolerance 1e-12",
+    "u64 wrap-around in the sums of squared abundances / dot product: the release build wraps silently; the model wraps the same way "
+    "(dot_eq holds for the wrapped values); the textbook value is reported only without overflow (known finding C05-F4)",
 ]
 AS = ["scaled values are taken from 1 .. 2^31 (above that the stored max_hash does not determine scaled, known finding D22; "
       "for scaled >= 2^54 the float bias factor is 0 and contained_by raises ZeroDivisionError)",
-      "sums of squared abundances stay below 2^64 (cases beyond are compared with the model but skipped by the oracle)",
+      "sketch sizes below 2^53 hashes in the binary64 theorems (integers convert exactly)",
       "sketches with two different non-zero `num` values: the statement does not list them as incompatible and defines no value; "
       "the model follows the code (similarity answers, jaccard refuses), the oracle does not judge the values"]
 RULE = ("pairs of sketches (sizes 0..200 mostly, up to 3000) in every size relation (equal, subset, superset, overlapping, disjoint, "
-        "one/both empty), with duplicates, flat / abundance / mixed, compatible and each single-field-incompatible variant (k, seed, "
-        "molecule, scaled, num-vs-scaled, num!=num); every comparison op in both argument orders, with and without the downsample flag, "
-        "through MinHash, SourmashSignature and the comparison dataclasses; the oracle recomputes the textbook values with Python sets "
-        "and Fractions from the hashes the implementation reports; non-trivial = a non-empty sketch and >= 3 numeric answers; "
-        "distinct = distinct op lists")
+        "one/both empty, >= 8x skew over a dense universe), with duplicates, flat / abundance / mixed, abundances up to 2^64-1 "
+        "(incl. 2^32-1, 2^32, 2^32+1: u64 overflow of the sums of squares), compatible and each single-field-incompatible variant "
+        "(k, seed, molecule, scaled, num-vs-scaled, num!=num); every comparison op in both argument orders, with and without the "
+        "downsample flag, through MinHash, SourmashSignature and the comparison dataclasses; for different scaled values (and for num "
+        "sketches) the same ops on EXPLICITLY downsampled copies, which must answer identically; IEEE primitives of the angular tail "
+        "(fsqrt, fcos); the oracle recomputes the textbook values with Python sets, exact integers and Fractions from the hashes the "
+        "implementation reports; non-trivial = a non-empty sketch and >= 3 numeric answers; distinct = distinct op lists")
+
+def extra(chk, pkg):
+    """the laws assumed of the two libm functions (AcosLaws, BiasLaws in Lemmas/CompareFloat.lean) are sampled on
+    this machine's libm (the one the implementation and the driver call); a failure is reported, never silently
+    accepted"""
+    import math
+    rng = chk.rng
+    half_pi = float.fromhex("0x1.921fb54442d18p+0")
+    bad = []
+    if math.acos(1.0) != 0.0:
+        bad.append("acos(1.0) != 0")
+    if math.acos(0.0) != half_pi:
+        bad.append("acos(0.0) != fl(pi/2)")
+    cs = [0.0, 5e-324, 1e-300, 1e-17, 2.0 ** -54, 2.0 ** -53, 6e-17, 1.2e-16, 1e-9, 0.5, 1.0 - 2.0 ** -53, 1.0 - 2.0 ** -52, 1.0]
+    cs += [rng.random() for _ in range(20000)] + [rng.random() * 2.0 ** -rng.randint(1, 80) for _ in range(20000)]
+    cs += [1.0 - rng.random() * 2.0 ** -rng.randint(1, 52) for _ in range(20000)]
+    n = 0
+    for c in cs:
+        n += 1
+        a = math.acos(c)
+        if not (0.0 <= a <= half_pi):
+            bad.append(f"acos({c!r}) = {a!r} outside [0, fl(pi/2)]")
+            break
+        v = 1.0 - 2.0 * a / math.pi
+        if not (0.0 <= v <= 1.0):
+            bad.append(f"1 - 2*acos({c!r})/pi = {v!r} outside [0,1]")
+            break
+    nb = 0
+    for s_ in [1, 2, 3, 10, 93, 100, 1000, 2 ** 20, 2 ** 31, 2 ** 40, 2 ** 53] + [rng.randint(1, 2 ** 31) for _ in range(300)]:
+        for d in list(range(1, 70)) + [rng.randint(1, 2 ** 40) for _ in range(20)]:
+            nb += 1
+            b = 1.0 - (1.0 - 1.0 / s_) ** float(d * s_)
+            if not (0.0 < b <= 1.0):
+                bad.append(f"bias factor for scaled={s_}, denom={d} is {b!r}, not in (0,1]")
+                break
+    chk.cov["libm_laws_sampled"] = {"acos_arguments": n, "bias_arguments": nb, "failures": bad[:5]}
+    for m in bad[:3]:
+        chk.add_violation("oracle", "C05:libm-law", "a law assumed of libm (AcosLaws / BiasLaws) fails on this machine: " + m,
+                          {"law": m})
+
 
 FLAV = (["small", "mid", "incompat", "skew", "downsample", "num", "self", "mid", "skew", "downsample", "small"] * 4)
 FLAV[17] = "big"
 
 if __name__ == "__main__":
-    streamlib.run_property("C05", cmp, FLAV, cmp.oracle, 1200, 30000, TB, AS, RULE, nontrivial=cmp.nontrivial)
+    streamlib.run_property("C05", cmp, FLAV, cmp.oracle, 1200, 30000, TB, AS, RULE, nontrivial=cmp.nontrivial, extra=extra)
